@@ -1,7 +1,7 @@
 """check configuration for C10 (loaded by lib/zvprops.py)"""
 
 PROP = {
- 'gen_tables': ['LevelText'],
+ 'gen_tables': ['LevelText', 'TransCE', 'TransCores'],
  'rule': 'ops: (a) entries with failures injected at 25–50 % of the positions where one can occur (marshaler errors, panicking / nil Stringers and '
          'errors, unencodable reflected values, failing causes in error groups) in random field trees, contexts and configs; (b) delivery: every '
          'failing subset of ≤4 sinks in a flat tee and in one multi-syncer (exhaustive) plus random core trees (tee / wrapper / multi-sink IO cores, '
